@@ -33,6 +33,8 @@ use crate::version::Version;
 use mio::net::{TcpListener, UdpSocket};
 use mio::{Events, Poll, PollOpt, Ready, Token};
 use mio_extras::timer::Timer;
+use net2::unix::UnixTcpBuilderExt;
+use net2::TcpBuilder;
 use rand::{thread_rng, RngCore};
 
 // mio event registrations
@@ -102,7 +104,7 @@ impl Server {
                 .parse()
                 .unwrap();
 
-            let tcp_listener = TcpListener::bind(&hc_sock_addr)
+            let tcp_listener = Self::bind_health_listener(&hc_sock_addr)
                 .expect("failed to bind TCP listener for health check");
 
             poll.register(
@@ -158,6 +160,18 @@ impl Server {
             #[cfg(feature = "fuzzing")]
             fake_client_socket: UdpSocket::bind(&"127.0.0.1:0".parse().unwrap()).unwrap(),
         }
+    }
+
+    // Every worker thread has its own `Server` and all of them listen on the same health
+    // check port, so (like the UDP socket) the listener is bound with SO_REUSEPORT.
+    fn bind_health_listener(addr: &SocketAddr) -> std::io::Result<TcpListener> {
+        let std_listener = TcpBuilder::new_v4()?
+            .reuse_address(true)?
+            .reuse_port(true)?
+            .bind(addr)?
+            .listen(1024)?;
+
+        TcpListener::from_std(std_listener)
     }
 
     /// Returns a reference to the server's long-term public key
